@@ -10,6 +10,13 @@ from . import ops
 from .ops import truthy, z_and, z_or, z_not, eq, kind
 
 
+class MixedSeq:
+    """Concatenation of concrete items and symbolic sequences (result of list() over a generator that did `yield from <SymSeq>`)."""
+
+    def __init__(self, parts):
+        self.parts = parts  # list of ("item", v) | ("seq", SymSeq)
+
+
 class DictView:
     def __init__(self, d, which):
         self.d = d
@@ -191,6 +198,11 @@ def _iter_bool(it, args, universal):
                 if universal:
                     return wrap(z3.ForAll([j], z3.Implies(rng, _zb(body))))
                 return wrap(z3.Exists([j], z3.And(rng, _zb(body))))
+        if it.spec:
+            terms = []
+            it.comp(gens, 0, Env(parent=g.env, module=g.env.module), lambda e: terms.append(truthy(it.eval(g.node.elt, e))))
+            r = z_and(*terms) if universal else z_or(*terms)
+            return r if isinstance(r, bool) else wrap(r)
         # concrete iteration space: short-circuit evaluation with forks, as Python does
         result = []
 
@@ -321,6 +333,10 @@ def b_sorted(it, args, kw):
 def b_list(it, args, kw):
     if not args:
         return []
+    if isinstance(args[0], VGen) and any(isinstance(x, SeqChunk) for x in args[0].items):
+        if args[0].exc is not None:
+            raise args[0].exc
+        return MixedSeq([("seq", x.seq) if isinstance(x, SeqChunk) else ("item", x) for x in args[0].items])
     if isinstance(args[0], SymSeq):
         s = args[0]
         return SymSeq(s.name + "'", s.n, s.maker, "list")
@@ -535,6 +551,8 @@ BUILTINS = {
 # ------------------------------------------------------------------ conversions (calls of native types)
 def convert(it, t, args, kw):
     name = t.name
+    if name == "type":
+        return b_type(it, args, kw)
     if name == "list":
         return b_list(it, args, kw)
     if name == "tuple":
@@ -614,15 +632,7 @@ def getitem(it, obj, key):
             return obj[k]
         raise OutOfSubset(f"list index {key!r}")
     if isinstance(obj, dict):
-        if not is_sym(key):
-            try:
-                if key in obj:
-                    return obj[key]
-            except TypeError:
-                it.raise_builtin("TypeError", "unhashable")
-            it.raise_builtin("KeyError", key)
-        opts = [(k, _zb(eq(k, key))) for k in obj] + [(_MISSING, z_and(*[z_not(_zb(eq(k, key))) for k in obj]) if obj else True)]
-        k = it.path.choose(opts, "key")
+        k = _dict_lookup(it, obj, key)
         if k is _MISSING:
             it.raise_builtin("KeyError", key)
         return obj[k]
@@ -663,6 +673,11 @@ def getitem(it, obj, key):
 
 
 _MISSING = object()
+
+
+class SeqChunk:
+    def __init__(self, seq):
+        self.seq = seq
 
 
 def slice_(it, obj, lo, hi, st):
@@ -896,14 +911,22 @@ def list_method(it, lst, name, args, kw):
     raise OutOfSubset(f"list.{name}")
 
 
+def has_symkeys(d):
+    return any(is_sym(k) for k in d)
+
+
 def _dict_lookup(it, d, key):
     """Returns (found_key or _MISSING) forking on symbolic keys."""
-    if not is_sym(key):
+    if not is_sym(key) and not has_symkeys(d):
         try:
             return key if key in d else _MISSING
         except TypeError:
             it.raise_builtin("TypeError", "unhashable")
-    opts = [(k, _zb(eq(k, key))) for k in d] + [(_MISSING, z_and(*[z_not(_zb(eq(k, key))) for k in d]) if d else True)]
+    if not is_sym(key) and key in d:
+        return key
+    conds = [(k, _zb(eq(k, key))) for k in d]
+    conds = [(k, c) for k, c in conds if not z3.is_false(z3.simplify(c))]
+    opts = conds + [(_MISSING, z_and(*[z_not(c) for _, c in conds]) if conds else True)]
     return it.path.choose(opts, "key")
 
 
@@ -922,20 +945,18 @@ def dict_method(it, d, name, args, kw):
     if name == "update":
         for a in args:
             if isinstance(a, dict):
-                d.update(a)
+                for k, v in list(a.items()):
+                    it.store_subscript(d, k, v)
             else:
                 for pair in _listify(it, a):
                     k, v = it.iterate_all(pair)
-                    if is_sym(k):
-                        raise OutOfSubset("update with symbolic key")
-                    d[k] = v
-        d.update(kw)
+                    it.store_subscript(d, k, v)
+        for k, v in kw.items():
+            it.store_subscript(d, k, v)
         return None
     if name == "setdefault":
         k = _dict_lookup(it, d, args[0])
         if k is _MISSING:
-            if is_sym(args[0]):
-                raise OutOfSubset("setdefault with symbolic key")
             d[args[0]] = args[1] if len(args) > 1 else None
             return d[args[0]]
         return d[k]
@@ -1051,7 +1072,16 @@ def x_field(it, args, kw):
     raise OutOfSubset("dataclasses.field outside a class body")
 
 
+_AUTO = [1000]
+
+
+def x_enum_auto(it, args, kw):
+    _AUTO[0] += 1
+    return _AUTO[0]
+
+
 EXTERN = {
+    "enum.auto": x_enum_auto,
     "functools.partial": x_partial,
     "functools.wraps": lambda it, a, k: BuiltinIdentity(),
     "functools.lru_cache": x_identity_decorator,
